@@ -58,6 +58,7 @@ func loopBodyEdges(fn *ssa.Function, over string) (edges []EdgeRef, headers []*s
 func runC24(c *Ctx) {
 	w := c.W
 	pkg := "z/tls"
+	c24Extras(c)
 	if w.Pkg(pkg) == nil {
 		c.Undecided("R-OWN", pkg, "package", "-", "not loaded")
 		return
